@@ -10,7 +10,10 @@ import gen
 TOL = Fraction(1, 10 ** 9)
 # ratios whose factor and inverse are both finite decimals (so that later rows can be restated exactly)
 RATIOS = [("2", "1"), ("1.0", "2.0"), ("4", "1"), ("1.0", "4.0"), ("5", "1"), ("1.0", "5.0"), ("10", "1"),
-          ("1.0", "10.0"), ("5", "4"), ("4.0", "5.0"), ("5", "2"), ("2.0", "5.0"), ("2.5", "1"), ("8", "1"), ("1.0", "8.0")]
+          ("1.0", "10.0"), ("5", "4"), ("4.0", "5.0"), ("5", "2"), ("2.0", "5.0"), ("2.5", "1"), ("8", "1"), ("1.0", "8.0"),
+          # long factors and two-digit sides; reverse splits are written with a decimal point: a reverse
+          # split of whole numbers is whole-number-only and refuses odd lots on purpose (C04)
+          ("1.0", "32.0"), ("1.0", "64.0"), ("1.0", "160.0"), ("32", "1"), ("1.0", "16.0"), ("25", "2"), ("12.5", "1"), ("20", "1")]
 
 
 def scale_row(r, f):
